@@ -89,6 +89,7 @@ func lsRunRS(t testing.TB, tr *tracer, sc lsScenario, variant int, alloc bool) {
 	var ents []os.FileInfo
 	var want []string
 	wantSize := map[string]int64{}
+	wantOwner := map[string][2]uint32{} // the owner each entry reports (FileInfoUidGid, Sys().(*syscall.Stat_t), or none)
 	for i := 0; i < sc.N; i++ {
 		name := lsName(i, variant)
 		if variant%3 == 1 && i == 0 {
@@ -97,8 +98,14 @@ func lsRunRS(t testing.TB, tr *tracer, sc lsScenario, variant int, alloc bool) {
 		if variant%3 == 1 && i == sc.N/2 && i != 0 {
 			name = ".."
 		}
-		n := &vnode{name: name, data: make([]byte, 1000+i), mode: os.FileMode(0o600 + i%64), mtime: fixedTime.Add(time.Duration(i) * time.Second)}
-		ents = append(ents, n)
+		n := &vnode{name: name, data: make([]byte, 1000+i), mode: os.FileMode(0o600 + i%64), mtime: fixedTime.Add(time.Duration(i) * time.Second),
+			uid: uint32(1000 + i), gid: uint32(5000 + i), own: (i + variant) % 4}
+		ents = append(ents, n.asInfo())
+		if _, _, has := n.wireOwner(); has {
+			wantOwner[name] = [2]uint32{n.uid, n.gid}
+		} else {
+			wantOwner[name] = [2]uint32{0, 0}
+		}
 		if name != "." && name != ".." {
 			want = append(want, name)
 			wantSize[name] = int64(1000 + i)
@@ -145,6 +152,11 @@ func lsRunRS(t testing.TB, tr *tracer, sc lsScenario, variant int, alloc bool) {
 		got = append(got, fi.Name())
 		if sz, ok := wantSize[fi.Name()]; ok && (fi.Size() != sz || fi.Mode().Perm() != os.FileMode(0o600+int(sz-1000)%64) || !fi.ModTime().Equal(fixedTime.Add(time.Duration(sz-1000)*time.Second))) {
 			attrsok = false
+		}
+		if ow, ok := wantOwner[fi.Name()]; ok {
+			if st, isStat := fi.Sys().(*FileStat); !isStat || st.UID != ow[0] || st.GID != ow[1] {
+				attrsok = false
+			}
 		}
 	}
 	tr.emit("LsResult", kv{"got": hexAll(got), "want": hexAll(want), "attrsok": attrsok, "err": errStr(rerr), "returned": returned, "calls": call})
